@@ -719,7 +719,8 @@ namespace Tftp
 
 theorem sender_timeout_giveup (sc : SCfg) (s : SState) (srun : s.status = .running) (dt : Nat)
     (hr : s.retry + 1 = Gen.maxRetries) :
-    (sStep sc s .fail dt).1.status = .failed ∧ (sStep sc s .fail dt).2 = [] := by
+    (sStep sc s .fail dt).1.status = .failed ∧ (sStep sc s .fail dt).2 = [] ∧
+      (sStep sc s .fail dt).1.retry = Gen.maxRetries := by
   obtain ⟨bn, win, filled, retry, since, status, base⟩ := s
   simp only at srun hr
   subst srun
@@ -730,7 +731,8 @@ theorem sender_timeout_giveup (sc : SCfg) (s : SState) (srun : s.status = .runni
 has ended successfully too - or has given up, and then the final acknowledgement was lost -/
 def LFDone (fl : Faults) (f : Bytes) (st : NetState) : Prop :=
   st.r.status = .ok ∧ st.r.win.file.content = f ∧
-    (st.s.status = .ok ∨ (st.s.status = .failed ∧ fl.dropAck.contains (st.na - 1) = true))
+    (st.s.status = .ok ∨
+      (st.s.status = .failed ∧ st.s.retry = Gen.maxRetries ∧ fl.dropAck.contains (st.na - 1) = true))
 
 def lfMeasure (st : NetState) (i j : Nat) : Nat :=
   7 * (Gen.maxRetries - st.s.retry) + 3 * st.dq.length + (i + j)
@@ -811,13 +813,16 @@ theorem lf_step (sc : SCfg) (rc : RCfg) (lc : LockCfg sc rc) (fl : Faults) (f : 
       have hsr : senderRunning s = true := by simp [senderRunning, srun]
       by_cases hr : s.retry + 1 = Gen.maxRetries
       · -- the budget is used up: the sender gives up; the final acknowledgement had been lost
-        obtain ⟨h1, h2⟩ := sender_timeout_giveup sc s srun sc.timeout hr
+        obtain ⟨h1, h2, h3⟩ := sender_timeout_giveup sc s srun sc.timeout hr
         refine ⟨emitData fl ⟨(sStep sc s .fail sc.timeout).1, r, [], [], nd, na, tmo + 1⟩ (sStep sc s .fail sc.timeout).2, ?_, Or.inl ?_⟩
         · simp only [netStep, hnr, hsr, Bool.not_true, Bool.false_and, Bool.false_eq_true, ↓reduceIte]
-        · refine ⟨rok, rfile, Or.inr ⟨?_, lost rfl⟩⟩
-          show (emitData fl _ _).s.status = .failed
-          unfold emitData
-          exact h1
+        · refine ⟨rok, rfile, Or.inr ⟨?_, ?_, lost rfl⟩⟩
+          · show (emitData fl _ _).s.status = .failed
+            unfold emitData
+            exact h1
+          · show (emitData fl _ _).s.retry = Gen.maxRetries
+            unfold emitData
+            exact h3
       · have hs := sender_timeout sc s srun ssince hr
         have hel : s.win.elems = [blk sc.b f (nblocks sc.b f)] := by
           have he := sinv.elems_eq 0 (by rw [slen]; omega)
